@@ -41,10 +41,11 @@ func consumeSingleTURNFrame(b []byte) (int, error) {
 	}
 
 	// Sizes are computed as int: header plus a 16-bit length does not fit in uint16.
+	// The channel number decides first: the first two bits of a STUN message are zero, those
+	// of a channel number are 0b01, whereas the magic cookie may well appear in the first
+	// bytes of a ChannelData payload.
 	var datagramSize int
 	switch {
-	case stun.IsMessage(b):
-		datagramSize = int(binary.BigEndian.Uint16(b[2:4])) + stunHeaderSize
 	case ChannelNumber(binary.BigEndian.Uint16(b[0:2])).Valid():
 		datagramSize = int(binary.BigEndian.Uint16(b[channelDataNumberSize:channelDataHeaderSize]))
 		if paddingOverflow := datagramSize % channelDataPadding; paddingOverflow != 0 {
@@ -52,6 +53,8 @@ func consumeSingleTURNFrame(b []byte) (int, error) {
 		}
 
 		datagramSize += channelDataHeaderSize
+	case stun.IsMessage(b):
+		datagramSize = int(binary.BigEndian.Uint16(b[2:4])) + stunHeaderSize
 	case len(b) < stunHeaderSize:
 		return 0, errIncompleteTURNFrame
 	default:
